@@ -59,6 +59,50 @@ def branch_satisfiable(S, branch, stats, Wcap=4, Kcap=4):
     return 'unknown', None
 
 
+NB_MARK = ' [evaluated through an FDE-family table cell at (N,B)]'
+
+
+def through_nb_cell(logic, model, s, kw):
+    '''FDE family only: does the library's evaluation of `s` apply a binary connective (or a
+    generalised one, for quantifiers / modal operators) to one operand valued N and one valued B?
+    Those are the cells where the library's tables (linear order) differ from the lattice its
+    rules are exact for -- the C07 known finding.'''
+    from spec import tables as spec
+    try:
+        if spec.logic_info(logic.Meta.name)['base'] != 'FDE':
+            return False
+    except Exception:  # noqa: BLE001
+        return False
+
+    def val(x, kw_):
+        try:
+            return str(model.value_of(x, **kw_))
+        except Exception:  # noqa: BLE001
+            return None
+
+    def walk(x, kw_):
+        tn = type(x).__name__
+        if tn == 'Operated':
+            ops = list(x.operands)
+            if x.operator.name in ('Possibility', 'Necessity'):
+                w = kw_.get('world', 0)
+                succ = sorted(model.R[w]) if w in model.R else []
+                vals = {val(ops[0], {'world': v}) for v in succ}
+                if {'N', 'B'} <= vals:
+                    return True
+                return any(walk(ops[0], {'world': v}) for v in succ)
+            if len(ops) == 2 and {val(ops[0], kw_), val(ops[1], kw_)} == {'N', 'B'}:
+                return True
+            return any(walk(o, kw_) for o in ops)
+        if tn == 'Quantified':
+            insts = [c >> x for c in sorted(model.constants)]
+            if {'N', 'B'} <= {val(i, kw_) for i in insts}:
+                return True
+            return any(walk(i, kw_) for i in insts)
+        return False
+    return walk(s, kw)
+
+
 def library_model_check(tab, branch):
     """The library's own model of an open branch evaluated with the library's
     evaluator on every node; returns a list of problems."""
@@ -89,7 +133,10 @@ def library_model_check(tab, branch):
         d = n.get('designated')
         want = True if d is None else d
         if (v in des) != want:
-            problems.append(f'node {s} (designated={d}, world={n.get("world")}) gets the value {v}')
+            mark = ''
+            if through_nb_cell(logic, model, s, kw):
+                mark = NB_MARK
+            problems.append(f'node {s} (designated={d}, world={n.get("world")}) gets the value {v}{mark}')
     try:
         if not model.is_countermodel_to(tab.argument):
             problems.append('is_countermodel_to(argument) is False')
